@@ -58,6 +58,14 @@ package broadcaster
 
 //@ func (*Broadcaster).Broadcast
 //@   tags C11
+// audit round 3 (holes found by an independent audit agent): the fan-out only offers values. It never closes a channel, never
+// replaces a subscriber's buffer, exit channel or id, and never edits the subscriber list (those belong to subscribe and to the
+// leaving forwarder): a closed or replaced buffer loses every later value or panics the next fan-out
+//@   at every before close assert [C11.bcast.noclose] false
+//@   at every store ch assert [C11.bcast.entry.immutable] false
+//@   at every store closeEventCh assert [C11.bcast.entry.immutable] false
+//@   at every store id assert [C11.bcast.entry.immutable] false
+//@   at every store eventChs assert [C11.bcast.list.immutable] false
 //@   requires b != nil
 //@   ghost nvis int
 //@   ghost sentto [int]bool
@@ -228,6 +236,13 @@ package broadcaster
 
 //@ func (*Broadcaster).subscribe$1
 //@   tags C11
+// audit round 3: every value taken from the buffer (select#0) is offered to the subscriber (select#1) before the next one is
+// taken - a forwarder that drops a value it holds (e.g. when the subscriber is slow) breaks "exactly once"; values are dropped
+// only on the way out (context ended / closed)
+//@   ghost ngot int
+//@   at entry ghost ngot = 0
+//@   at select#0 ghost ngot = ngot + ((res0 >= 0 && !selsend && selchan == bufferedCh) ? 1 : 0)
+//@   loop 0 invariant [C11.fwd.offered.each] ngot == nrecv
 //@   opt go=detached
 //@   requires b != nil && ctx != nil
 //@   requires [C11.fwd.bound] len(b.eventChs) > 0 && b.eventChs[len(b.eventChs) - 1].id == id && b.eventChs[len(b.eventChs) - 1].ch == bufferedCh && b.eventChs[len(b.eventChs) - 1].closeEventCh == closeEventCh && b.eventChs[len(b.eventChs) - 1].sub == ch
